@@ -50,7 +50,7 @@ RULE = ('one evaluation = one rule application / normalisation / derivative / bo
         'non-trivial = the real code returned a result and both sides were inside the fragment, so that the SMT query was discharged')
 EXPLANATION = ('the value of both sides is a closed-form z3 term in the symbolic parameters; z3 decides inequality over all parameter values allowed by the conditions; '
                'shapes and rule arguments are enumerated, parameter values are not')
-BUDGET_S = {'quick': 240, 'thorough': 1500}
+BUDGET_S = {'quick': 240, 'thorough': 900}
 
 
 def bounds(tier):
